@@ -14,6 +14,8 @@ Oracle: docs/buffer.md, property statement.
 """
 from __future__ import annotations
 
+import ast
+
 from sa import project as P
 from sa.decide import canon
 from sa.interp import Entry
@@ -179,6 +181,48 @@ def r_buf_pairing(ctx):
                               first_line(ctx.project, cname))
 
 
+def _no_dup_semantic(a, cs, z) -> bool:
+    """the two obligations of sort_no_duplicates whatever way the loops are written (over positions or over the elements):
+    one fresh integer per input; for every sorted variable, Or over ALL inputs of `variable == input`; one strict chain
+    a[i] < a[i + 1] for i = 0 .. n - 2"""
+    n = ("call", "len", (z,), ())
+
+    def full_range(L, upper):
+        return L[3][0] == "range" and len(L[3]) == 3 and L[3][1] == K(0) and same_int(L[3][2], upper)
+
+    def one_each(t):
+        return isinstance(t, tuple) and t and t[0] == "each" and len(t[1]) == 1 and not t[2]
+    if not (a[0] == "list" and len(a[1]) == 1 and one_each(a[1][0]) and a[1][0][3][0] == "fresh" and full_range(a[1][0][1][0], n)):
+        return False
+    La, fresh = a[1][0][1][0], a[1][0][3]
+    if not (cs[0] == "list" and len(cs[1]) == 2):
+        return False
+    mem, chain = cs[1]
+    if not (one_each(mem) and full_range(mem[1][0], n)):
+        return False
+    L1 = mem[1][0]
+    var_forms = [("idx", a, elem(L1))] + ([fresh] if L1 == La else [])
+    body = mem[3]
+    if not (is_app(body, "Or") and len(body) == 3 and one_each(body[2])):
+        return False
+    L2 = body[2][1][0]
+    if norm_iter(L2[3]) == z:
+        inp = elem(L2)
+    elif full_range(L2, n):
+        inp = ("idx", z, elem(L2))
+    else:
+        return False
+    eqt = body[2][3]
+    if not (is_app(eqt, "==") and len(eqt) == 4 and ((eqt[2] in var_forms and eqt[3] == inp) or (eqt[3] in var_forms and eqt[2] == inp))):
+        return False
+    if not (is_app(chain, "And") and len(chain) == 3 and one_each(chain[2]) and full_range(chain[2][1][0], sub(n, K(1)))):
+        return False
+    Lc, c = chain[2][1][0], chain[2][3]
+    lo, hi = (c[2], c[3]) if is_app(c, "<") and len(c) == 4 else (c[3], c[2]) if is_app(c, ">") and len(c) == 4 else (None, None)
+    return lo is not None and lo[0] == "idx" and hi[0] == "idx" and lo[1] == a and hi[1] == a \
+        and same_int(lo[2], elem(Lc)) and same_int(hi[2], add(elem(Lc), K(1)))
+
+
 def _passes_suffice(upper) -> bool:
     """the number of sweeps is len(<list>) + c with c >= -1: n - 1 full sweeps sort n values, fewer do not"""
     from sa.decide import lin
@@ -207,7 +251,7 @@ def r_sort_net(ctx):
             Lc = loop("b0.0", ("range", K(0), sub(n, K(1))))
             want = ("list", (("each", (Li,), (), app("Or", ("each", (Lj,), (), eq(("idx", a, elem(Li)), ("idx", z, elem(Lj)))))),
                              app("And", ("each", (Lc,), (), lt(("idx", a, elem(Lc)), ("idx", a, add(elem(Lc), K(1))))))))
-            ok = canon(cs) == canon(want)
+            ok = canon(cs) == canon(want) or _no_dup_semantic(rv[1][0], rv[1][1], z)
         if ok:
             ctx.ok("R-SORT-NET", "util.sort_no_duplicates: every sorted value is one of the inputs, strictly increasing chain",
                    sample={"returns": show(norm(rv))[:300]})
@@ -215,6 +259,9 @@ def r_sort_net(ctx):
             ctx.violation("R-SORT-NET", "util.sort_no_duplicates", "membership of every sorted value + strict chain",
                           f"returns {show(norm(rv))[:400] if isinstance(rv, tuple) else rv}", "processscheduler/util.py")
     # sort_duplicates: compare-exchange sweep
+    outer_fn = ctx.project.function("util", "sort_duplicates")
+    if not any(isinstance(x, ast.FunctionDef) and x.name == "bubble_up" for x in ast.walk(outer_fn) if x is not outer_fn):
+        return _sort_net_inline(ctx)
     runs = runs_of(ctx, Entry("func", module="util", name="sort_duplicates.bubble_up"))
     fails_closed(ctx, "R-SORT-NET", runs)
     for r in runs:
@@ -283,6 +330,101 @@ def r_sort_net(ctx):
             ctx.violation("R-SORT-NET", "util.sort_duplicates", "n passes of the sweep, chained",
                           f"calls: {[(show(c.data['args'][0])[:60], [show(l[3])[:60] for l in c.loops]) for c in calls]}; returns "
                           f"{show(norm(rv))[:200] if isinstance(rv, tuple) else rv}", "processscheduler/util.py")
+
+
+def _sort_net_inline(ctx):
+    """util.sort_duplicates written without a sweep helper: nested loops `for each pass: for each adjacent pair:` over a working
+    copy updated in place.  Same obligations as the helper form: enough passes (len + c, c >= -1), every pass starts from the
+    result of the previous one, the inner loop visits every adjacent pair (p, p + 1), p = 0 .. n - 2, the exchange is
+    If(x <= y, (x1, y1) == (x, y), (x1, y1) == (y, x)) with x1 written at p and y1 at p + 1, every exchange assertion is returned,
+    and the list returned is the working list after the last pass"""
+    from sa.decide import lin
+    where = "util.sort_duplicates"
+    fn = ctx.project.function("util", "sort_duplicates")
+    z = S(fn.args.args[0].arg)
+    runs = runs_of(ctx, Entry("func", module="util", name="sort_duplicates"))
+    fails_closed(ctx, "R-SORT-NET", runs)
+    for r in runs:
+        if r.rejected:
+            continue
+        rv = r.retval
+        why = None
+        if not (isinstance(rv, tuple) and rv[0] == "tuple" and len(rv[1]) == 2):
+            raise P.AnalysisError(f"R-SORT-NET: {where}: neither a sweep helper nor a (list, assertions) pair built by nested loops")
+        out_list, assts = rv[1]
+        eaches = [i for i in (assts[1] if assts[0] == "list" else ()) if isinstance(i, tuple) and i and i[0] == "each"]
+        if assts[0] != "list" or len(assts[1]) != 1 or len(eaches) != 1 or len(eaches[0][1]) != 2:
+            raise P.AnalysisError(f"R-SORT-NET: {where}: the exchange assertions are not one family over (pass, position): "
+                                  f"{show(assts)[:200]}")
+        (Lp, Li), guards, body = eaches[0][1], eaches[0][2], eaches[0][3]
+        n_len = ("call", "len", (z,), ())
+
+        def as_len(t):
+            """bounds written with len(<copy of the input>) or a local holding it are len(input)"""
+            def f(x):
+                if isinstance(x, tuple) and len(x) == 4 and x[0] == "call" and x[1] == "len" and len(x[2]) == 1 and z in subterms(x[2][0]) \
+                        and not any(isinstance(q, tuple) and q and q[0] in ("each", "idx") for q in subterms(x[2][0])):
+                    return n_len
+                return None
+            return rewrite(norm(t), f)
+        if guards:
+            why = f"exchanges are filtered by {[show(g)[:60] for g in guards]}"
+        elif not (Lp[3][0] == "range" and Lp[3][1] == K(0) and _passes_suffice(as_len(Lp[3][2]))):
+            why = f"the passes range over {show(Lp[3])[:80]}: fewer than len - 1 sweeps do not sort"
+        elif not (is_app(body, "If") and len(body) == 5):
+            why = f"the exchange is not an If: {show(body)[:120]}"
+        else:
+            cond, th, el_ = body[2], body[3], body[4]
+            if not (is_app(cond) and cond[1] in ("<=", ">=") and len(cond) == 4):
+                why = f"the exchange tests {show(cond)[:80]}, not `x <= y`"
+            else:
+                x, y = (cond[2], cond[3]) if cond[1] == "<=" else (cond[3], cond[2])
+                same_list = x[0] == "idx" and y[0] == "idx" and x[1] == y[1]
+                px, py = (x[2], y[2]) if same_list else (None, None)
+                if same_list and same_int(px, add(py, K(1))):
+                    why = f"the exchange keeps the pair when {show(cond)[:100]}: the larger value stays first"
+                elif not same_list or not same_int(py, add(px, K(1))):
+                    why = f"the exchange compares {show(x)[:60]} and {show(y)[:60]}: not two adjacent positions of one list"
+                else:
+                    # the inner loop: positions p = 0 .. n - 2
+                    e_i = elem(Li)
+                    lp_ = lin(norm(px))
+                    ok_pos = Li[3][0] == "range" and len(lp_.coef) == 1 and lp_.coef.get(e_i) == 1 \
+                        and same_int(add(Li[3][1], K(int(lp_.const))), K(0)) \
+                        and same_int(add(as_len(Li[3][2]), K(int(lp_.const))), sub(n_len, K(1)))
+                    if not ok_pos:
+                        why = f"position {show(px)[:40]} for {show(e_i)} in {show(Li[3])[:80]} does not run over 0 .. len - 2"
+                    else:
+                        stores = [ev for ev in r.events_of("store") if ev.data["container"] == x[1] and tuple(ev.loops) == (Lp, Li)]
+                        at = {}
+                        for ev in stores:
+                            if same_int(ev.data["key"], px):
+                                at["p"] = ev.data["value"]
+                            elif same_int(ev.data["key"], py):
+                                at["q"] = ev.data["value"]
+                        x1, y1 = at.get("p"), at.get("q")
+                        if not (len(stores) == 2 and x1 is not None and y1 is not None and x1 != y1 and x1[0] == "fresh" and y1[0] == "fresh"):
+                            why = "the two fresh results are not written back at the two compared positions"
+                        else:
+                            want = If(le(x, y), And(eq(x1, x), eq(y1, y)), And(eq(x1, y), eq(y1, x)))
+                            if canon(body) != canon(want):
+                                why = f"the exchange {show(norm(body))[:200]} does not put the smaller value first"
+                            else:
+                                # the working list: a copy of the list carried from pass to pass, which is what is returned
+                                work = x[1]
+                                chained = isinstance(work, tuple) and any(isinstance(q, tuple) and q and q[0] == "carried" and q[2] == Lp
+                                                                           for q in subterms(work))
+                                returned = isinstance(out_list, tuple) and out_list[0] == "loopout" and out_list[2] == Lp \
+                                    and norm(out_list[4]) == norm(work) and z in subterms(out_list[3])
+                                if not chained:
+                                    why = "a pass does not start from the result of the previous pass"
+                                elif not returned:
+                                    why = f"the list returned ({show(out_list)[:120]}) is not the working list after the last pass"
+        if why is None:
+            ctx.ok("R-SORT-NET", f"{where} (inline form): enough chained passes of a full adjacent compare-exchange sweep, all exchange "
+                                 f"assertions and the final working list returned", sample={"exchange": show(norm(body))[:300]})
+        else:
+            ctx.violation("R-SORT-NET", where, "chained passes of a full adjacent compare-exchange sweep", why, "processscheduler/util.py")
 
 
 def r_buf_report(ctx):
